@@ -746,26 +746,11 @@ class PathResult:
 def explore(world, run_path, max_paths=4000):
     # wall-clock limit for the symbolic execution of ONE function (a change to it can make the paths or the feasibility queries
     # explode: minutes of CPU and gigabytes before anything is reported).  Past the limit the function is reported as outside the
-    # subset (undecided); a watchdog thread also interrupts a solver call that does not honour its own timeout
-    import threading
+    # subset (undecided).  (No watchdog THREAD here: Python's collector may run on any thread and would release z3 terms while the main
+    # thread is inside a solver call - z3 contexts are not thread-safe.)
     import time as _time
     limit = float(os.environ.get('PYVC_EXPLORE_LIMIT_S', '240'))
-    t_end = _time.time() + limit
-    stop = threading.Event()
-
-    def _watch():
-        while not stop.wait(5.0):
-            if _time.time() > t_end:
-                try:
-                    z3.main_ctx().interrupt()
-                except Exception:
-                    pass
-    th = threading.Thread(target=_watch, daemon=True)
-    th.start()
-    try:
-        return _explore(world, run_path, max_paths, t_end, limit)
-    finally:
-        stop.set()
+    return _explore(world, run_path, max_paths, _time.time() + limit, limit)
 
 
 def _explore(world, run_path, max_paths, t_end, limit):
